@@ -389,6 +389,9 @@ fn variants(tier: Tier) -> Vec<Variant> {
 		v.push(Variant { name: "spends-before", head: 35, compact_at: None, spends: before, heights: (0, 3, 3, 4), probe_heights: (0, 5, 3, 4), plan: Plan::Full, archive: true });
 		v.push(Variant { name: "spends-after", head: 38, compact_at: None, spends: after, heights: (0, 2, 4, 3), probe_heights: (0, 3, 4, 4), plan: Plan::Full, archive: true });
 	}
+	// many small segments per tree (9 / 9 / 8 of two leaves each): more consecutive segments in
+	// the receiver's caches than it applies in one batch (4); fixed delivery orders only
+	v.push(Variant { name: "many-small-segments", head: 35, compact_at: None, spends: both.clone(), heights: (0, 1, 1, 1), probe_heights: (0, 1, 1, 1), plan: Plan::Fixed, archive: false });
 	// 90+ blocks (Chain::compact refuses to run on shorter chains): archive header at height 70
 	v.push(Variant { name: "compacted", head: 95, compact_at: Some(90), spends: comp.clone(), heights: (0, 5, 7, 6), probe_heights: (0, 6, 7, 7), plan: if q { Plan::Fixed } else { Plan::Full }, archive: true });
 	if !q {
